@@ -210,7 +210,7 @@ def applicable(t: str, pattern: str, cname: str, value) -> str | None:
                 # one form of a name continued by the following literal spells another form of a name
                 # (hsb: "apr" + "." vs the genitive "apr."): the produced text is inherently ambiguous
                 lit = str(toks[i + 1][1])
-                lit = facts["sep_time"] if lit == ":" else facts["sep_date"] if lit == "/" else lit
+                lit = facts["sep_time"] if lit == ":" else facts["sep_date"] if lit == "/" else "." if lit == ";" else lit
                 ch = lit[:1].casefold()
                 nm = facts["names"][(letter, count)]
                 if ch and any(b != a and b.startswith(a) and b[len(a)] == ch for a in nm for b in nm):
@@ -406,9 +406,9 @@ def _k_fpf(c) -> CaseInfo:
 
 BUILTINS = {
     "date": ["iso", "full_roundtrip"],
-    "time": ["extended_iso", "long_extended_iso"],
-    "datetime": ["extended_iso", "bcl_round_trip", "full_roundtrip", "full_roundtrip_without_calendar"],
-    "instant": ["extended_iso"],
+    "time": ["extended_iso", "long_extended_iso", "general_iso", "hour_iso", "hour_minute_iso", "variable_precision_iso"],
+    "datetime": ["extended_iso", "bcl_round_trip", "full_roundtrip", "full_roundtrip_without_calendar", "general_iso", "date_hour_iso", "date_hour_minute_iso", "variable_precision_iso"],
+    "instant": ["extended_iso", "general"],
     "offset": ["general_invariant", "general_invariant_with_z"],
     "duration": ["roundtrip", "json_roundtrip"],
     "annual": ["iso"],
@@ -419,10 +419,16 @@ def _k_builtin(c) -> CaseInfo:
     t, name, vj = c["type"], c["name"], c["value"]
     if t not in BUILTINS or name not in BUILTINS[t] or not T.value_in_domain(t, vj):
         raise InvalidCase
+    # fixed-precision ISO patterns represent values on their own grid: truncate the generated value onto it
+    grid = {"general_iso": 10**9, "general": 10**9, "hour_iso": 3600 * 10**9, "date_hour_iso": 3600 * 10**9, "hour_minute_iso": 60 * 10**9, "date_hour_minute_iso": 60 * 10**9}.get(name)
+    if grid:
+        vj = dict(vj)
+        key = "i" if t == "instant" else "ns"
+        vj[key] -= vj[key] % grid
     v = T.make_value(t, vj)
     p = getattr(T.pattern_class(t), name)
     cal_id = getattr(getattr(v, "calendar", None), "id", "ISO")
-    calendarless = name in ("iso", "extended_iso", "bcl_round_trip", "full_roundtrip_without_calendar", "long_extended_iso")
+    calendarless = name in ("iso", "extended_iso", "bcl_round_trip", "full_roundtrip_without_calendar", "long_extended_iso", "general_iso", "hour_iso", "hour_minute_iso", "variable_precision_iso", "date_hour_iso", "date_hour_minute_iso")
     if t in ("date", "datetime") and calendarless and cal_id != "ISO":
         raise InvalidCase  # these patterns do not carry the calendar: they round-trip ISO values
     if name == "bcl_round_trip" and vj["ns"] % 100 != 0:
